@@ -1052,7 +1052,8 @@ func (w *worker) run(a alteration, mode string, indexAfterPanic bool, partial fu
 			if mode == "persisted" && readable >= 0 {
 				upto = nTx
 			}
-			p.compare(a, p.want(upto, !s.panicked), s.obs, mode, s.leaked, out)
+			_, indexed := s.obs["InitIndexing#"]
+			p.compare(a, p.want(upto, indexed), s.obs, mode, s.leaked, out)
 			if mode == "rebuilt" {
 				os.RemoveAll(filepath.Join(w.dir, "index"))
 			}
